@@ -25,6 +25,7 @@ Two kinds of theorems (the manifest says the same):
     zoo", not an independent proof.
 -/
 import OdlModel.Lemmas.Spaces
+import OdlModel.Lemmas.SetMembership
 import OdlModel.Gen.DTypeTables
 
 open OdlModel.Spaces
@@ -285,10 +286,10 @@ theorem C20.castVal_idem (T : DTables) (d : DType) (r : Rat) :
         · simp [h2, Rat.floor_intCast]
         · simp only [h2, if_false]
           have : (((-r).floor : Int) : Rat) = 0 ∨ True := Or.inr trivial
-          simp [Rat.floor_intCast, ← Rat.intCast_neg]
+          simp [-Int.cast_neg, Rat.floor_intCast, ← Rat.intCast_neg]
       · simp only [hr, if_false]
         by_cases h2 : ((r.floor : Int) : Rat) < 0
-        · simp [h2, Rat.floor_intCast, ← Rat.intCast_neg]
+        · simp [-Int.cast_neg, h2, Rat.floor_intCast, ← Rat.intCast_neg]
         · simp [h2, Rat.floor_intCast]
     · simp [hi]
 
@@ -965,3 +966,235 @@ example : (Space.prod [.prod [.tensor ⟨[2], .float64, defaultW .np⟩] (defaul
       (.const .ps (.fin 2) (.fin 1)) .real).eqI
     (.prod [.prod [.tensor ⟨[2], .float64, defaultW .np⟩] (defaultW .ps) .complex]
       (.const .ps (.fin 2) (.fin 1)) .complex) = true := by decide
+
+/-! ## round 4: membership in plain sets, `contains_set`, `contains_all` -/
+
+
+/-- `contains_set` is SOUND with respect to `in`, two separately coded methods: for all
+non-composite plain sets `A`, `B` (`EmptySet`, `UniversalSet`, `Strings`, the number sets,
+interval products of any dimension ≥ 1 with finite bounds, `FiniteSet`s of Python scalars),
+if `A.contains_set(B)` (exact inclusion: `atol = 0` / no `atol`) returns `True`, then every
+value `v` (scalars of every kind incl. NumPy complex scalars, sequences nested to any depth)
+with `v in B` also has `v in A`.  In particular the tower `Integers ⊂ RealNumbers ⊂
+ComplexNumbers` of `contains_set` agrees with the `numbers` ABC tests of `__contains__`.
+Executed definitions: `PLeaf.containsSet` (stream `cset/*`) and `PLeaf.mem` (stream `mem/*`).
+The hypothesis `posDim` is needed: see `C20.contains_set_zero_dim_fails` (finding C20-F15). -/
+theorem C20.contains_set_sound (A B : PLeaf) (same : Bool) (hA : A.wf) (hB : B.wf)
+    (hB0 : B.posDim) (hsame : same = true → A = B)
+    (h : PLeaf.containsSet 0 same A B = some true) (v : Val) (hv : B.mem v = true) :
+    A.mem v = true := by
+  cases same with
+  | true => rw [hsame rfl]; exact hv
+  | false =>
+    have h' : A.containsSetDistinct 0 B = some true := by
+      cases A <;> simpa [PLeaf.containsSet] using h
+    clear h hsame
+    cases A with
+    | universal => simp [PLeaf.mem]
+    | empty => cases B <;> simp_all [PLeaf.containsSetDistinct]
+    | complex =>
+      cases B <;> simp [PLeaf.containsSetDistinct] at h' <;> cases v <;>
+        simp_all [PLeaf.mem]
+      · exact Scalar.real?_isSome_num? hv
+      · exact Scalar.real?_isSome_num? (Scalar.isIntegral_real? hv)
+    | real =>
+      cases B <;> simp [PLeaf.containsSetDistinct] at h' <;> cases v <;>
+        simp_all [PLeaf.mem]
+      exact Scalar.isIntegral_real? hv
+    | integers => cases B <;> simp_all [PLeaf.containsSetDistinct]
+    | strings n =>
+      cases B <;> simp [PLeaf.containsSetDistinct, PLeaf.eqB] at h'
+      subst h'; exact hv
+    | finite a =>
+      cases B with
+      | finite b =>
+        simp only [PLeaf.containsSetDistinct, PLeaf.eqB, Option.some.injEq, Bool.and_eq_true,
+          List.all_eq_true, List.any_eq_true] at h'
+        cases v with
+        | tuple vs => simp [PLeaf.mem] at hv
+        | sc s =>
+          simp only [PLeaf.mem, List.any_eq_true] at hv ⊢
+          obtain ⟨e, he, hes⟩ := hv
+          obtain ⟨e', he', hee⟩ := h'.2 e he
+          refine ⟨e', he', ?_⟩
+          rw [Scalar.pyEq_iff] at *
+          exact hee.trans hes
+      | _ => simp [PLeaf.containsSetDistinct, PLeaf.eqB] at h'
+    | interval lo hi =>
+      cases B with
+      | interval lo' hi' =>
+        simp only [PLeaf.containsSetDistinct, Option.some.injEq, Bool.and_eq_true] at h'
+        simp only [PLeaf.wf] at hA hB
+        simp only [PLeaf.posDim] at hB0
+        have hh0 : hi' ≠ [] := by
+          intro hc; rw [hc] at hB; exact hB0 (List.length_eq_zero_iff.1 hB.symm)
+        obtain ⟨l1, b1⟩ := approxContains_zero hB0 h'.1
+        obtain ⟨l2, b2⟩ := approxContains_zero hh0 h'.2
+        cases v with
+        | sc s =>
+          simp only [PLeaf.mem, intervalMem] at hv ⊢
+          cases hs : s.floatConv? with
+          | none => simp [hs] at hv
+          | some x =>
+            simp only [hs, Bool.and_eq_true, decide_eq_true_eq] at hv ⊢
+            refine ⟨by omega, boxMem_mono lo hi lo' hi' [x] l1 l2 hA (by simp; omega) b1 b2 hv.2⟩
+        | tuple vs =>
+          simp only [PLeaf.mem, intervalMem] at hv ⊢
+          cases hs : vs.mapM Val.coord? with
+          | none => simp [hs] at hv
+          | some p =>
+            simp only [hs, Bool.and_eq_true, decide_eq_true_eq] at hv ⊢
+            refine ⟨by omega, boxMem_mono lo hi lo' hi' p l1 l2 hA (by omega) b1 b2 hv.2⟩
+      | _ => simp [PLeaf.containsSetDistinct] at h'
+
+
+/-- `IntervalProd.contains_set` at `atol = 0` is a PARTIAL ORDER on interval products of
+positive dimension (any, also mixed, dimensions; distinct objects, i.e. without the `self is
+other` shortcut): reflexive (for every `atol ≥ 0`; uses the constructor invariant
+`min_pt ≤ max_pt`), transitive, and antisymmetric up to equality of the end points (which is
+`IntervalProd.__eq__`).  Last part: for every pair of sets, `contains_set` is monotone in
+`atol`. -/
+theorem C20.interval_contains_set_partial_order :
+    (∀ lo hi atol, hi.length = lo.length → List.Forall₂ (· ≤ ·) lo hi → 0 ≤ atol →
+      PLeaf.containsSet atol false (.interval lo hi) (.interval lo hi) = some true) ∧
+    (∀ lo hi lo' hi' lo'' hi'' : List Rat, hi.length = lo.length → hi'.length = lo'.length →
+      hi''.length = lo''.length → lo' ≠ [] → lo'' ≠ [] →
+      PLeaf.containsSet 0 false (.interval lo hi) (.interval lo' hi') = some true →
+      PLeaf.containsSet 0 false (.interval lo' hi') (.interval lo'' hi'') = some true →
+      PLeaf.containsSet 0 false (.interval lo hi) (.interval lo'' hi'') = some true) ∧
+    (∀ lo hi lo' hi' : List Rat, hi.length = lo.length → hi'.length = lo'.length →
+      lo ≠ [] → lo' ≠ [] →
+      PLeaf.containsSet 0 false (.interval lo hi) (.interval lo' hi') = some true →
+      PLeaf.containsSet 0 false (.interval lo' hi') (.interval lo hi) = some true →
+      lo = lo' ∧ hi = hi') ∧
+    (∀ (A B : PLeaf) (same : Bool) (atol atol' : Rat), atol ≤ atol' →
+      PLeaf.containsSet atol same A B = some true →
+      PLeaf.containsSet atol' same A B = some true) := by
+  have nonempty_hi : ∀ lo hi : List Rat, hi.length = lo.length → lo ≠ [] → hi ≠ [] := by
+    intro lo hi h h0 hc; rw [hc] at h; exact h0 (List.length_eq_zero_iff.1 h.symm)
+  have mk : ∀ lo hi p : List Rat, p.length = lo.length → boxMem lo hi p = true →
+      approxContains lo hi p 0 = true := by
+    intro lo hi p hl hb
+    unfold approxContains
+    by_cases hp : p.isEmpty = true
+    · simp [hp]
+    · simp [hp, hl, distInf_of_boxMem lo hi p hb]
+  refine ⟨?_, ?_, ?_, ?_⟩
+  · intro lo hi atol hl hf ha
+    have hb := boxMem_self lo hi hf
+    have e1 := distInf_of_boxMem lo hi lo hb.1
+    have e2 := distInf_of_boxMem lo hi hi hb.2
+    simp [PLeaf.containsSet, PLeaf.containsSetDistinct, approxContains, e1, e2, ha, hl]
+  · intro lo hi lo' hi' lo'' hi'' h1 h2 h3 n2 n3 hab hbc
+    simp only [PLeaf.containsSet, PLeaf.containsSetDistinct, Option.some.injEq,
+      Bool.and_eq_true] at hab hbc ⊢
+    obtain ⟨l1, b1⟩ := approxContains_zero n2 hab.1
+    obtain ⟨l2, b2⟩ := approxContains_zero (nonempty_hi lo' hi' h2 n2) hab.2
+    obtain ⟨l3, b3⟩ := approxContains_zero n3 hbc.1
+    obtain ⟨l4, b4⟩ := approxContains_zero (nonempty_hi lo'' hi'' h3 n3) hbc.2
+    exact ⟨mk lo hi lo'' (by omega) (boxMem_mono lo hi lo' hi' lo'' l1 l2 h1 (by omega) b1 b2 b3),
+      mk lo hi hi'' (by omega) (boxMem_mono lo hi lo' hi' hi'' l1 l2 h1 (by omega) b1 b2 b4)⟩
+  · intro lo hi lo' hi' h1 h2 n1 n2 hab hba
+    simp only [PLeaf.containsSet, PLeaf.containsSetDistinct, Option.some.injEq,
+      Bool.and_eq_true] at hab hba
+    obtain ⟨l1, b1⟩ := approxContains_zero n2 hab.1
+    obtain ⟨l2, b2⟩ := approxContains_zero (nonempty_hi lo' hi' h2 n2) hab.2
+    obtain ⟨l3, b3⟩ := approxContains_zero n1 hba.1
+    obtain ⟨l4, b4⟩ := approxContains_zero (nonempty_hi lo hi h1 n1) hba.2
+    exact boxMem_antisymm lo hi lo' hi' l1 h1 l2 b1 b2 b3 b4
+  · intro A B same atol atol' hle h
+    have ap : ∀ lo hi p : List Rat, approxContains lo hi p atol = true →
+        approxContains lo hi p atol' = true := by
+      intro lo hi p
+      unfold approxContains
+      split
+      · simp
+      · split
+        · simp
+        · simp only [decide_eq_true_eq]; intro hd; exact le_trans hd hle
+    cases A <;> cases B <;> cases same <;>
+      simp_all [PLeaf.containsSet, PLeaf.containsSetDistinct]
+
+/-- `contains_all(array)` of the number sets (a test on the array's dtype against
+`is_int_dtype` / `is_real_dtype` / `is_numeric_dtype`, tables regenerated from the live module)
+respects the tower, for every dtype of the library: an array accepted by `Integers` is accepted
+by `RealNumbers`, one accepted by `RealNumbers` by `ComplexNumbers` (stream `call/*`). -/
+theorem C20.contains_all_dtype_tower (d : DType) :
+    let T := OdlModel.Gen.DTypes.tables
+    (PLeaf.integers.containsAllDtype T d = some true →
+      PLeaf.real.containsAllDtype T d = some true) ∧
+    (PLeaf.real.containsAllDtype T d = some true →
+      PLeaf.complex.containsAllDtype T d = some true) := by
+  cases d <;> simp [PLeaf.containsAllDtype, OdlModel.Gen.DTypes.tables,
+    OdlModel.Gen.DTypes.isReal, OdlModel.Gen.DTypes.isNumeric, OdlModel.Gen.DTypes.isInt]
+
+/-- Membership in composites, for members that are themselves composites nested to any depth:
+`x in SetUnion(…)` iff `x` is in some member, `x in SetIntersection(…)` iff in all members
+(empty union: nothing, empty intersection: everything), `x in CartesianProduct(…)` iff `x` has a
+`len` (sequence, or a string: its characters), the right length, and its i-th item is in the
+i-th member.  (Characterisation of the recursive `any` / `all` / `zip` loops; stream `mem/*`.) -/
+theorem C20.composite_mem_iff (ms : List PSet) (v : Val) :
+    ((PSet.union ms).mem v = true ↔ ∃ s ∈ ms, s.mem v = true) ∧
+    ((PSet.inter ms).mem v = true ↔ ∀ s ∈ ms, s.mem v = true) ∧
+    ((PSet.cartesian ms).mem v = true ↔
+      ∃ ps, v.items? = some ps ∧ List.Forall₂ (fun s p => s.mem p = true) ms ps) := by
+  refine ⟨by simp [PSet.mem, memAny_iff], by simp [PSet.mem, memAll_iff], ?_⟩
+  simp only [PSet.mem]
+  cases hv : v.items? with
+  | none => simp
+  | some ps =>
+    simp only [Bool.and_eq_true, decide_eq_true_eq, Option.some.injEq, exists_eq_left']
+    constructor
+    · rintro ⟨hl, hz⟩; exact (memZip_iff ms ps hl).1 hz
+    · intro hf
+      have hl : ps.length = ms.length := (forall2_length hf).symm
+      exact ⟨hl, (memZip_iff ms ps hl).2 hf⟩
+
+/-- Membership is coherent with `SetUnion.__eq__` / `SetIntersection.__eq__` (mutual inclusion of
+the member tuples): two unions (intersections) whose member tuples contain the same members —
+in any order, with any multiplicity — have exactly the same elements.  (For members with a
+`__contains__` that may raise, the real code's `any` makes this order-dependent: finding
+C20-F14; such members are outside the model.) -/
+theorem C20.composite_mem_order_irrelevant (a b : List PSet) (h : ∀ s, s ∈ a ↔ s ∈ b)
+    (v : Val) :
+    (PSet.union a).mem v = (PSet.union b).mem v ∧ (PSet.inter a).mem v = (PSet.inter b).mem v := by
+  have h1 := (C20.composite_mem_iff a v)
+  have h2 := (C20.composite_mem_iff b v)
+  constructor
+  · rw [Bool.eq_iff_iff, h1.1, h2.1]; simp [h]
+  · rw [Bool.eq_iff_iff, h1.2.1, h2.2.1]; simp [h]
+
+/-- Counterexample (finding C20-F13) on the model of the current code: the NumPy complex scalar
+`np.complex64(0.5+1j)` IS reported as a member of `IntervalProd(0, 1)` (its imaginary part is
+discarded by `np.array(other, dtype=float)`), the equal Python `complex` `0.5+1j` is not; the
+same inside a sequence.  So membership in an interval product does not respect `==` of values
+and admits non-real numbers. -/
+theorem C20.interval_mem_numpy_complex_fails :
+    (PLeaf.interval [0] [1]).mem (.sc (.cplx (1/2) 1 true)) = true ∧
+    (PLeaf.interval [0] [1]).mem (.sc (.cplx (1/2) 1 false)) = false ∧
+    (Scalar.cplx (1/2) 1 true).pyEq (.cplx (1/2) 1 false) = true ∧
+    (PLeaf.interval [0, 0] [1, 1]).mem (.tuple [.sc (.real (1/2)), .sc (.cplx (1/2) 2 true)]) = true := by
+  decide +kernel
+
+/-- Counterexamples on the model of the current code: (finding C20-F15) `IntervalProd(0,
+1).contains_set(IntervalProd([], []))` is `True` although `()` is in the second and not in the
+first; and the `self is other` shortcut is observable: with `atol = -0.25` an interval product
+contains ITSELF but not an equal copy. -/
+theorem C20.contains_set_zero_dim_fails :
+    PLeaf.containsSet 0 false (.interval [0] [1]) (.interval [] []) = some true ∧
+    (PLeaf.interval [] []).mem (.tuple []) = true ∧
+    (PLeaf.interval [0] [1]).mem (.tuple []) = false ∧
+    PLeaf.containsSet (-1/4) true (.interval [0] [1]) (.interval [0] [1]) = some true ∧
+    PLeaf.containsSet (-1/4) false (.interval [0] [1]) (.interval [0] [1]) = some false := by
+  decide +kernel
+
+/-- non-vacuity of `C20.contains_set_sound`: `[0,2]×[0,2] ⊇ [1/2,1]×[0,2]` and a NumPy float
+pair in the smaller box -/
+example : PLeaf.containsSet 0 false (.interval [0, 0] [2, 2]) (.interval [1/2, 0] [1, 2]) = some true ∧
+    (PLeaf.interval [1/2, 0] [1, 2]).mem (.tuple [.sc (.real (3/4)), .sc (.int 2)]) = true := by
+  decide +kernel
+
+/-- non-vacuity of the composite theorems: a Cartesian product nested in a union -/
+example : (PSet.union [.leaf .integers, .cartesian [.leaf .real, .union [.leaf (.strings 1),
+      .leaf (.finite [.pynone])]]]).mem (.tuple [.sc (.real (1/2)), .sc .pynone]) = true := by
+  decide +kernel
